@@ -17,7 +17,11 @@ RULE = ("valid (reference, estimate) pairs per task on the exact 1/32 s lattice 
         "metric functions with the real ones; non-trivial = both sides non-empty")
 ASSUMPTIONS = ["theorems are about the Lean model; they transfer to the code where the correspondence suites agree",
                "binary64 on the exact lattice performs the modelled rational comparisons exactly"]
-UNPROVED = []
+UNPROVED = [
+    "C08.Segment (entropy-based scores): relabelling invariance of MI / NMI / AMI / NCE / V is proved for the "
+    "real-number reading of the model (the table is permuted, sums are re-ordered); binary64 re-ordering effects "
+    "are checked by the relabelling oracle at 1e-9, not proved",
+]
 SUITES, _classifiers = SU.load_all()
 CHECKERS, ORACLES = _relational.make(R.check_invariance, self_inputs=False)
 _xc, _xo = _relational.extra(PID)
